@@ -88,7 +88,21 @@ def redact_claims(claims: Mapping[str, object]) -> dict[str, object]:
         A new dict with the same keys, sensitive values replaced.
 
     """
-    return {k: (REDACTED if _DEFAULT_CLAIM_REDACT_RE.search(k) else v) for k, v in claims.items()}
+    return {k: (REDACTED if _DEFAULT_CLAIM_REDACT_RE.search(str(k)) else _redact_nested(v)) for k, v in claims.items()}
+
+
+def _redact_nested(value: object) -> object:
+    """Apply :func:`redact_claims` to objects nested inside a claim value.
+
+    Identity providers nest claims (``address``, ``realm_access``, custom
+    namespaces), so a sensitive name can sit at any depth, inside objects and
+    inside lists of objects.
+    """
+    if isinstance(value, Mapping):
+        return redact_claims(value)
+    if isinstance(value, (list, tuple)):
+        return [_redact_nested(item) for item in value]
+    return value
 
 
 def no_redaction(claims: Mapping[str, object]) -> dict[str, object]:
